@@ -24,13 +24,20 @@ CONSTANTS N, Alphabet,
 PV(zc, hash, far, tostart, good, lazy, nice, chain, d3, ap, lim) ==
   << 0, 0, zc, 9, hash, IF hash = 1 THEN 5 ELSE 0, IF hash = 1 THEN 32767 ELSE 0, 1023, d3, far, tostart, good, lazy, nice, chain,
      3, ap, lim >>
-ParamSet == { PV(1, 1, 0, 0, 4, 4, 258, 4, 4096, 0, 0),      \* zlib, lazy, add all
-              PV(1, 1, 0, 0, 0, 0, 258, 1, 4096, 0, 0),      \* greedy, one candidate
-              PV(0, 1, 1, 1, 4, 5, 4, 2, 1, 0, 0),           \* far + to start, short nice length, 3-byte matches only near
-              PV(1, 2, 0, 0, 0, 0, 258, 2, 4096, 1, 3),      \* miniz hash, add first only beyond 3
-              PV(1, 3, 0, 1, 4, 4, 258, 3, 4096, 0, 0),      \* libdeflate: two tables
-              PV(1, 5, 0, 0, 4, 4, 258, 0, 4096, 2, 4),      \* zlib-ng 4-byte hash, unlimited chain, first and last
-              PV(1, 6, 0, 0, 3, 258, 258, 2, 4096, 4, 0) }   \* random vector hash, always lazy
+PV16(zc, hash, far, tostart, good, lazy, nice, chain, d3, ap, lim, minlen) ==
+  [PV(zc, hash, far, tostart, good, lazy, nice, chain, d3, ap, lim) EXCEPT ![16] = minlen]
+\* vectors inside the estimator's range (Params!InEstimatorRange): these are also replayed into the real matcher
+InRangeSet == { PV(1, 1, 0, 0, 4, 4, 258, 4, 4096, 0, 0),        \* zlib, lazy, add all
+                PV(1, 1, 0, 0, 0, 0, 258, 1, 4096, 0, 0),        \* greedy, one candidate
+                PV(0, 1, 1, 1, 8, 16, 8, 2, 1, 0, 0),            \* far + to start, short nice length, 3-byte matches only near
+                PV(1, 2, 0, 0, 0, 0, 258, 2, 4096, 1, 3),        \* miniz hash, add first only beyond 3
+                PV(1, 3, 0, 1, 4, 4, 258, 3, 4096, 0, 0),        \* libdeflate: two tables
+                PV16(1, 5, 0, 0, 4, 4, 258, 5, 4096, 2, 4, 4),   \* zlib-ng 4-byte hash, first and last
+                PV(1, 6, 0, 0, 32, 258, 258, 2, 4096, 4, 0) }    \* random vector hash, always lazy
+\* and some outside it, for the model only (a chain budget of 0 wraps to "unlimited")
+ParamSet == InRangeSet \cup { PV(1, 1, 0, 0, 4, 5, 4, 0, 4096, 0, 0) }
+PR == INSTANCE Params
+ASSUME \A v \in InRangeSet : PR!InEstimatorRange(v)
 
 VARIABLES plain, par, pos, H, chains, H3, chains3, pend, state
 vars == <<plain, par, pos, H, chains, H3, chains3, pend, state>>
@@ -88,7 +95,7 @@ PendingValid == (state = "run" /\ pend # NoRef) =>
                    /\ Common(plain, pos, pend[2], 0, pend[1]) >= pend[1]
 \* the parameter vectors, for the harness' exhaustive small-scope run of the real matcher (match-exhaustive)
 Replay == (pos = 0 /\ Len(plain) = 1 /\ plain[1] = 97 /\ par = PV(1, 1, 0, 0, 4, 4, 258, 4, 4096, 0, 0)) =>
-             PrintT(<<"REPLAY", ToJson([vecs |-> SetToSeq(ParamSet)])>>)
+             PrintT(<<"REPLAY", ToJson([vecs |-> SetToSeq(InRangeSet)])>>)
 \* vacuity probes (each must be violated): the model does reach rejections, corrected lengths,
 \* distances several hops away, and wrongly predicted token kinds
 ProbeRejected == state # "rejected"
